@@ -26,6 +26,10 @@
 #include "ola/dmx/RunLengthEncoder.h"
 #include "ola/network/IPV4Address.h"
 #include "ola/network/Socket.h"
+#include "ola/acn/CID.h"
+#include "ola/io/SelectServer.h"
+#include "libs/acn/E131Node.h"
+#include "plugins/artnet/ArtNetNode.h"
 #include "plugins/espnet/EspNetNode.h"
 #include "plugins/pathport/PathportNode.h"
 #include "plugins/sandnet/SandNetNode.h"
@@ -260,6 +264,81 @@ static string do_pp(const vector<string> &a) {
   return deliver_result(&shown, rx, before, overlay(a[3], 0, f));
 }
 
+// ---------------------------------------------------------------- Art-Net
+// A real UDPSocket that never binds: sendto/recvfrom are interposed anyway.
+class CapSocket : public ola::network::UDPSocket {
+ public:
+  bool Bind(const IPV4SocketAddress &) { return true; }
+  bool EnableBroadcast() { return true; }
+};
+
+static string do_an(const vector<string> &a) {
+  // an <net> <subnet> <uni> <port_id> <huni> <old> <pre> <frame>
+  using ola::plugin::artnet::ArtNetNode;
+  using ola::plugin::artnet::ArtNetNodeOptions;
+  vector<uint8_t> f = vh::unhex(a[8]);
+  uint8_t dummy = 0;
+  DmxBuffer tx(f.empty() ? &dummy : f.data(), f.size()), rx;
+  buf_init(&rx, a[6]);
+  ola::io::SelectServer ss;
+  ArtNetNodeOptions opts;
+  opts.always_broadcast = true;
+  ArtNetNode node(iface(), &ss, opts, new CapSocket());
+  unsigned port = vh::num(a[4]);
+  node.SetNetAddress(vh::num(a[1]));
+  node.SetSubnetAddress(vh::num(a[2]));
+  node.SetInputPortUniverse(port, vh::num(a[3]));
+  node.SetOutputPortUniverse(0, vh::num(a[5]));
+  node.SetDMXHandler(0, &rx, ola::NewCallback(&on_data));
+  if (!node.Start()) return "pkt=none;start=0";
+  const uint8_t two[2] = {1, 2};
+  DmxBuffer pre(two, 2);
+  for (unsigned k = 0; k < vh::num(a[7]); k++) node.SendDMX(port, pre);
+  g_sent.clear();
+  bool sent = node.SendDMX(port, tx);
+  if (!sent || g_sent.size() != 1) return "pkt=none;sent=" + vh::str(g_sent.size());
+  vector<uint8_t> pkt = g_sent[0];
+  int before = g_calls;
+  g_rx = pkt; g_rx_valid = true; set_source();
+  node.m_impl.SocketReady();
+  vector<uint8_t> e = f;
+  if (e.size() & 1) e.push_back(0);
+  return deliver_result(&pkt, rx, before, vh::hex(e));
+}
+
+// ---------------------------------------------------------------- E1.31
+static string do_e1(const vector<string> &a) {
+  // e1 <rev2> <universe> <hu> <old> <pre> <priority> <preview> <name> <frame>
+  using ola::acn::E131Node;
+  vector<uint8_t> name = vh::unhex(a[8]), f = vh::unhex(a[9]);
+  uint8_t dummy = 0;
+  DmxBuffer tx(f.empty() ? &dummy : f.data(), f.size()), rx;
+  buf_init(&rx, a[4]);
+  ola::io::SelectServer ss;
+  E131Node::Options opts;
+  opts.use_rev2 = vh::num(a[1]) != 0;
+  opts.source_name = string(name.begin(), name.end());
+  uint8_t cid_bytes[16];
+  for (int k = 0; k < 16; k++) cid_bytes[k] = k + 1;
+  E131Node node(&ss, "", opts, ola::acn::CID::FromData(cid_bytes));
+  node.m_interface = iface();
+  node.m_socket.Init();
+  uint8_t prio_out = 0;
+  node.m_dmp_inflator.SetHandler(vh::num(a[3]), &rx, &prio_out, ola::NewCallback(&on_data));
+  unsigned universe = vh::num(a[2]);
+  const uint8_t two[2] = {1, 2};
+  DmxBuffer pre(two, 2);
+  for (unsigned k = 0; k < vh::num(a[5]); k++) node.SendDMX(universe, pre, vh::num(a[6]), false);
+  g_sent.clear();
+  bool sent = node.SendDMX(universe, tx, vh::num(a[6]), vh::num(a[7]) != 0);
+  if (!sent || g_sent.size() != 1) return "pkt=none;sent=" + vh::str(g_sent.size());
+  vector<uint8_t> pkt = g_sent[0];
+  int before = g_calls;
+  g_rx = pkt; g_rx_valid = true; set_source();
+  node.m_incoming_udp_transport.Receive();
+  return deliver_result(&pkt, rx, before, vh::hex(f));
+}
+
 static string handle(const string &p) {
   vector<string> a = vh::split(p);
   const string &op = a[0];
@@ -269,6 +348,8 @@ static string handle(const string &p) {
   if (op == "sa" && a.size() == 8) return do_sa(a);
   if (op == "es" && a.size() == 5) return do_es(a);
   if (op == "pp" && a.size() == 7) return do_pp(a);
+  if (op == "an" && a.size() == 9) return do_an(a);
+  if (op == "e1" && a.size() == 10) return do_e1(a);
   return "bad-op";
 }
 
